@@ -163,6 +163,65 @@ def axiom_audit(pid, modules, log):
 
 # ---------------------------------------------------------------- correspondence
 
+def _excused(lin, go, a, i):
+    """Is the difference at line i of a case starting at line a outside every property's domain?
+    `leftdomain T<k>` taints table k; what is created from a tainted object is tainted (wrappers of it, wrappers
+    of those, its rows); a difference is excused only when its operation addresses something tainted (or is the
+    global event log).  A bare `leftdomain` taints everything that follows in the case."""
+    tainted_t, everything = set(), False
+    wt, rt = {}, {}          # wrapper -> its table; row -> the tables it was given to
+    for j in range(a, i + 1):
+        op = lin[j].decode("utf-8", "replace").split() if j < len(lin) else []
+        out = go[j].decode("utf-8", "replace").split() if j < len(go) else []
+        if not op:
+            continue
+        if op[0] == "leftdomain":
+            if len(op) > 1:
+                tainted_t.add(op[1])
+            else:
+                everything = True
+            continue
+        if j == i:
+            break
+        # who belongs to whom (whenever it was created: a wrapper made before its table left the domain
+        # still renders that table)
+        if op[0] in ("wrap", "autowrap") and len(op) > 2 and out and out[0].startswith("W"):
+            t = op[2] if op[0] == "wrap" else op[1]
+            wt[out[0]] = wt.get(t, t)            # wrapping a wrapper reaches the same table
+        if op[0] == "rewrap" and len(op) > 2 and out and out[0].startswith("W"):
+            wt[out[0]] = wt.get(op[2], op[2])
+        if op[0] in ("newvia", "autonew") and len(out) > 1 and out[0].startswith("T") and out[1].startswith("W"):
+            wt[out[1]] = out[0]
+        if op[0] in ("addrowitems", "addheaders", "appendnewrow", "addsep") and len(op) > 1 and out and out[0].startswith("R"):
+            rt.setdefault(out[0], set()).add(op[1])
+        if op[0] == "addrow" and len(op) > 2:
+            rt.setdefault(op[2], set()).add(op[1])
+    tainted_w = {w for w, t in wt.items() if t in tainted_t}
+    tainted_r = {r for r, ts in rt.items() if ts & tainted_t}
+    if everything:
+        return True
+    if not tainted_t:
+        return False
+    op = lin[i].decode("utf-8", "replace") if i < len(lin) else ""
+    if op.startswith("events"):
+        return True
+    toks = re.split(r"[ ,]", op)
+    tk = {t[1:] for t in tainted_t}
+    rk = {r[1:] for r in tainted_r}
+    for t in toks:
+        if t in tainted_t or t in tainted_w or t in tainted_r:
+            return True
+        m = re.match(r"^(t|c):(\d+)", t)
+        if m and m.group(2) in tk:
+            return True
+        m = re.match(r"^(r|x):(\d+)", t)
+        if m and m.group(2) in rk:
+            return True
+        if t.startswith("h:") or t.startswith("y:") or t.startswith("Y"):
+            return True   # handles and copies: not tracked, given the benefit of the doubt
+    return False
+
+
 def run_stream(pid, stream, seed, n, first, tag):
     """Generate n cases on the real library, run the model, diff. Returns a dict."""
     d = os.path.join(WORK, "%s-%s-%d" % (pid, tag, os.getpid()))
@@ -203,7 +262,7 @@ def run_stream(pid, stream, seed, n, first, tag):
             if case in seen_cases:
                 continue
             seen_cases.add(case)
-            if case is not None and b"leftdomain" in lin[bounds[case][0] - 1:i]:
+            if case is not None and _excused(lin, go, bounds[case][0] - 1, i):
                 res.setdefault("outside_domain", []).append({"case": case, "line": ln,
                     "op": lin[i].decode("utf-8", "replace")[:300] if i < len(lin) else ""})
                 continue
